@@ -243,15 +243,15 @@ CLAIMED["C06"] = dict(
          "delta_g/delta_yuk/delta_tan_beta, tan(alpha) (27 functions, 32 overloads) -- the folded formula is "
          "even under the joint sign flip of mu, M1, M2, M3, A_f/T_f: products multiply parities, sums need equal "
          "parities, |x| and x^2 are even, comparisons/min/max/log of a sign-changing quantity are definite "
-         "violations. (P2-P4) For the exact one-loop and the photonic two-loop contributions: the neutralino, chargino, "
-         "smuon and sneutrino mass matrices transform covariantly under the flip (M -> (iS) M (iS) etc., polynomial "
+         "violations. (P2-P4) For the exact one-loop, the photonic two-loop and the 2L(a) contributions: the neutralino, chargino, "
+         "smuon, sneutrino, stop, sbottom and stau mass matrices transform covariantly under the flip (M -> (iS) M (iS) etc., polynomial "
          "identities), which maps every decomposition allowed by the contracts to one with the same masses and "
-         "ZN -> ZN iS, UM/UP -> UM/UP is, ZM -> ZM t; the formulas are invariant under exactly this substitution, and "
+         "ZN -> ZN iS, UM/UP -> UM/UP is, ZM/ZT/ZB/ZTau -> Z t; the formulas are invariant under exactly this substitution, and "
          "they do not depend on the row signs/phases the contracts leave arbitrary. This holds for all parameter values and "
          "all sign combinations at once.",
     note=TRUST + "Masses (eigenvalues) are invariant by the covariance argument; the decomposition contracts are those "
-         "checked structurally in C12. NOT decided (listed in the evidence): the 2L(a) contributions (stop/sbottom/stau and "
-         "Higgs mixing), and points with exactly degenerate masses where the decomposition leaves a rotation open.",
+         "checked structurally in C12. NOT decided: points with exactly degenerate masses, where the decomposition leaves a rotation "
+         "(not only row phases) open.",
     ref="3 C06, 10.6")
 
 CLAIMED["C07"] = dict(
